@@ -73,7 +73,7 @@ def run(r):
     import core, C05
     quick = r.tier == "quick"
     stdlib = set(core.tables()["stdlib_modules"])
-    bad, stats, _ = C05.explore_handlers(r, random.Random(r.seed * 19 + 1), int(os.environ.get("VERIF_H2_WORKSPACES", 12 if quick else 80)), stdlib)
+    bad, stats, _ = C05.explore_handlers(r, random.Random(r.seed * 19 + 1), int(os.environ.get("VERIF_H2_WORKSPACES", 12 if quick else 40)), stdlib)
     seen = set()
     for b in bad:
         if not any(x in b["why"] for x in ("go-to-definition", "references of a definition")) or b["why"] in seen:
